@@ -68,10 +68,11 @@ def cliOnlySettings : List (Str × String) := [
   (s "mypyc_annotation_file", "mypyc -a"),
   (s "verbosity", "count action (-v)")]
 
-/-- list-valued options without a converter in `ini_config_types`: `parse_section` then calls
-    `list(value)`, which splits the text into characters — a genuine defect of the current tree
-    (reported as known finding) -/
-def knownCharSplit : List Str := [s "deprecated_calls_exclude"]
+/-- the row `deprecated_calls_exclude` had in the option table before the repair 9b531e7 (a list-valued
+    attribute; no converter in `ini_config_types`, so `parse_section` applied `list` to the text and split
+    it into characters) — kept as a fixed literal for the witness theorem `pre_repair_row_untyped` -/
+def preRepairRow : Gen.Options.Attr :=
+  { name := s "deprecated_calls_exclude", ty := .list, boolDefault := none, defaultRepr := "[]" }
 
 /-- members of `PER_MODULE_OPTIONS` that are derived state, set through the corresponding list option -/
 def derivedPerModule : List (Str × String) := [
@@ -132,13 +133,11 @@ def tomlIniSameKeysB : Bool := iniKeys == tomlKeys
 def perModuleInlineOkB : Bool := perModule.all (perModuleSettable genTemplate)
 def strictOkB : Bool := strictFlags.all (strictAssignmentOk genTemplate)
 def listAttrsTypedB : Bool := attrs.all (listAttrTyped iniKeys)
-def listAttrsTypedPartialB : Bool :=
-  attrs.all (fun a => knownCharSplit.contains a.name || listAttrTyped iniKeys a)
+def listAttrsTypedTomlB : Bool := attrs.all (listAttrTyped tomlKeys)
 /-- the exemption lists name only flags/options that exist (a stale exemption is an error, too) -/
 def exemptionsLiveB : Bool :=
   (cliOnlySpellings ++ specialHandled).all (fun e => flags.any (fun f => f.strings.contains e.1)) &&
-  cliOnlySettings.all (fun e => flags.any (fun f => f.dest == e.1)) &&
-  knownCharSplit.all (fun k => attrs.any (fun a => a.name == k))
+  cliOnlySettings.all (fun e => flags.any (fun f => f.dest == e.1))
 
 /-- command-line flag ↦ what argparse does to the `Options` object -/
 def cliArgOf (flag : Str) (value : Str) : Option CliArg :=
